@@ -160,13 +160,26 @@ def extra_oracle(case, r):
              % (i_last, probe, ap['demand'], ap['traits'], fit))]
 
 
+def trace_oracle(trace):
+    """master-level stage: the aggregates of the real Master's cell before and after every cycle it runs"""
+    agg = []
+    for i, rec in enumerate(trace):
+        if rec.get('op') == 'Schedule':
+            agg += _aggregates(rec['before'], 'before the cycle at op %d' % i)
+            agg += _aggregates(rec['after'], 'after the cycle at op %d' % i)
+        if agg:
+            break
+    return agg[:2]
+
+
 def run(tier, seed):
     spec = E.make_spec(PID, PROFILE, 'C02 profile: mixed partitions/traits/limits, servers down/up/removed/re-added; '
                        'each history is driven quiescent (three extra cycles), then ONE probe instance is submitted '
                        'and a cycle run; the oracle scans all leaf servers for a fit', extra_oracle=extra_oracle)
     spec['gen_case'] = gen_case
+    spec = E.with_master_stage(spec, PID, tier, seed, trace_oracle=trace_oracle)
     core.standard_run(PID, tier, seed, spec)
 
 
 def replay_case(case):
-    return E.replay(PID, case, extra_oracle=extra_oracle)
+    return E.replay(PID, case, extra_oracle=extra_oracle, trace_oracle=trace_oracle)
